@@ -27,7 +27,10 @@
                             handler may hold the exception;
     * `C15_scopes_benign`, `C15_entries_in_own_file`, `C15_enter_file_no_finally` (Tie A) and
       `C15_scoped_pinned` (the end-to-end statement for scope ids of the code under test);
-    * `C15_scoped_needs_inOwnFile`, `C15_scoped_needs_no_suppress`: neither hypothesis can be dropped.
+    * `C15_scoped_needs_inOwnFile`, `C15_scoped_needs_no_suppress`: neither hypothesis can be dropped;
+    * `C15_captured_fatal_on_stderr` (+ strict error, + the pinned annotation parser): a fatal raised
+      under `redirect_stderr` still yields a fatal line on stderr, through the handler pinned by
+      `C15_capture_handler_pinned` (Tie A); `C15_captured_fatal_needs_reemit`.
 -/
 import RattrModel.Diag
 import RattrModel.Spec.ExitCode
@@ -454,11 +457,12 @@ structure RawDiag where
   level : Level
   badness : Nat
   src : Option FileId
+  filtered : Bool
   scopeIds : List String
 
 /-- All ids known ⇒ the resolved step. -/
 def RawDiag.resolve (d : RawDiag) : Option Step :=
-  (d.scopeIds.mapM kindOfId).map (Step.diag d.level d.badness d.src)
+  (d.scopeIds.mapM kindOfId).map (Step.diag d.level d.badness d.src d.filtered)
 
 theorem mapM_kindOfId_benign (ids : List String) (ks : List ScopeKind)
     (h : ids.mapM kindOfId = some ks) : ks.all ScopeKind.benign = true := by
@@ -480,7 +484,7 @@ theorem mapM_kindOfId_benign (ids : List String) (ks : List ScopeKind)
 diagnostics of a run are raised, if every diagnostic is raised in its own file then the exit status
 is the contract's on the places where the diagnostics really arose. -/
 theorem C15_scoped_pinned (cfg : Cfg) (steps : List Step)
-    (hids : ∀ s ∈ steps, ∀ lv b src sc, s = Step.diag lv b src sc →
+    (hids : ∀ s ∈ steps, ∀ lv b src fl sc, s = Step.diag lv b src fl sc →
               ∃ ids : List String, ids.mapM kindOfId = some sc)
     (hf : inOwnFile none [] steps = true) :
     (DiagScope.run cfg steps).exit = Spec.exit cfg.strict cfg.threshold (bySrc steps)
@@ -490,8 +494,8 @@ theorem C15_scoped_pinned (cfg : Cfg) (steps : List Step)
   rw [List.all_eq_true]
   intro s hs
   cases s with
-  | diag lv b src sc =>
-    obtain ⟨ids, hi⟩ := hids _ hs lv b src sc rfl
+  | diag lv b src fl sc =>
+    obtain ⟨ids, hi⟩ := hids _ hs lv b src fl sc rfl
     exact mapM_kindOfId_benign ids sc hi
   | _ => rfl
 
@@ -504,8 +508,8 @@ left": the target's own star-import warning (weight 1) plus an error of the star
 counted while `current_file` is the target again. Threshold 1: the contract says exit 0 (only 1
 counts), the run exits 1 with 6 in the target bucket. -/
 theorem C15_scoped_needs_inOwnFile :
-    let steps := [Step.enterFile (some 0), .diag .warning 1 (some 0) [.propagate],
-                  .enterFile (some 2), .leaveFile, .diag .error 5 (some 2) [.propagate], .leaveFile]
+    let steps := [Step.enterFile (some 0), .diag .warning 1 (some 0) false [.propagate],
+                  .enterFile (some 2), .leaveFile, .diag .error 5 (some 2) false [.propagate], .leaveFile]
     allPass steps = true ∧ inOwnFile none [] steps = false
     ∧ (DiagScope.run (lax 1) steps).exit = 1 ∧ (DiagScope.run (lax 1) steps).state = ⟨6, 0, 0⟩
     ∧ Spec.exit false 1 (bySrc steps) = 0 ∧ Spec.buckets (bySrc steps) = ⟨1, 5, 0⟩ := by
@@ -514,8 +518,8 @@ theorem C15_scoped_needs_inOwnFile :
 /-- A manager whose `__exit__` returns a truthy value around the raise: the fatal is logged, the
 run goes on, prints its output and exits 0 — the contract says 1. -/
 theorem C15_scoped_needs_no_suppress :
-    let steps := [Step.enterFile (some 0), .diag .fatal 0 (some 0) [.propagate, .suppress, .propagate],
-                  .diag .info 0 (some 0) [.propagate], .leaveFile]
+    let steps := [Step.enterFile (some 0), .diag .fatal 0 (some 0) false [.propagate, .suppress, .propagate],
+                  .diag .info 0 (some 0) false [.propagate], .leaveFile]
     inOwnFile none [] steps = true ∧ allBenign steps = false
     ∧ (DiagScope.run (lax 0) steps).exit = 0 ∧ (DiagScope.run (lax 0) steps).output = true
     ∧ (DiagScope.run (lax 0) steps).logged = [⟨.fatal, .target⟩, ⟨.info, .target⟩]
@@ -526,7 +530,7 @@ theorem C15_scoped_needs_no_suppress :
 counting, the gate passes too. -/
 theorem C15_scoped_needs_no_suppress_strict_import :
     let steps := [Step.enterFile (some 0), .enterFile (some 1),
-                  .diag .error 5 (some 1) [.propagate, .suppress], .leaveFile, .leaveFile]
+                  .diag .error 5 (some 1) false [.propagate, .suppress], .leaveFile, .leaveFile]
     inOwnFile none [] steps = true
     ∧ (DiagScope.run ⟨true, 0, .all, false, false⟩ steps).exit = 0
     ∧ Spec.exit true 0 (bySrc steps) = 1 := by
@@ -534,30 +538,99 @@ theorem C15_scoped_needs_no_suppress_strict_import :
 
 /-- A handler that may fall through has the same effect. -/
 theorem C15_scoped_needs_no_swallowing_handler :
-    let steps := [Step.enterFile (some 0), .diag .fatal 0 (some 0) [.catchSwallow, .capture], .leaveFile]
+    let steps := [Step.enterFile (some 0), .diag .fatal 0 (some 0) false [.catchSwallow, .capture], .leaveFile]
     (DiagScope.run (lax 0) steps).exit = 0 ∧ Spec.exit false 0 (bySrc steps) = 1
     ∧ (DiagScope.run (lax 0) steps).stderr = [] := by
   decide
 
 /-- Non-vacuity: a run through target, a star-imported file, a followed import and simplification
-that satisfies both hypotheses of `C15_scoped_exit`, with a fatal held by the pinned code's
-re-raising handler under `redirect_stderr` (its line does not reach stderr), then raised again. -/
+that satisfies both hypotheses of `C15_scoped_exit`, with a fatal of the filtered family held by the
+pinned code's re-emitting handler under `redirect_stderr`: its own line does not reach stderr, the
+handler's fatal does (logged: both). -/
 example :
-    let steps := [Step.enterFile (some 0), .diag .warning 1 (some 0) [.propagate, .propagate],
-                  .enterFile (some 2), .diag .error 5 (some 2) [.propagate, .propagate, .propagate], .leaveFile,
-                  .enterFile (some 1), .diag .warning 1 (some 1) [.propagate], .leaveFile,
-                  .diag .fatal 0 (some 0) [.propagate, .catchReraise, .capture],
-                  .diag .fatal 0 (some 0) [.propagate]]
+    let steps := [Step.enterFile (some 0), .diag .warning 1 (some 0) false [.propagate, .propagate],
+                  .enterFile (some 2), .diag .error 5 (some 2) false [.propagate, .propagate, .propagate], .leaveFile,
+                  .enterFile (some 1), .diag .warning 1 (some 1) false [.propagate], .leaveFile,
+                  .diag .fatal 0 (some 0) true [.propagate, .catchReemit, .capture]]
     allBenign steps = true ∧ inOwnFile none [] steps = true
     ∧ (DiagScope.run (lax 0) steps).exit = 1 ∧ (DiagScope.run (lax 0) steps).state = ⟨1, 6, 0⟩
-    ∧ (DiagScope.run (lax 0) steps).stderr = [⟨.warning, .target⟩, ⟨.error, .import_⟩, ⟨.warning, .import_⟩, ⟨.fatal, .target⟩] := by
+    ∧ (DiagScope.run (lax 0) steps).stderr = [⟨.warning, .target⟩, ⟨.error, .import_⟩, ⟨.warning, .import_⟩, ⟨.fatal, .target⟩]
+    ∧ (DiagScope.run (lax 0) steps).logged = [⟨.warning, .target⟩, ⟨.error, .import_⟩, ⟨.warning, .import_⟩, ⟨.fatal, .target⟩, ⟨.fatal, .target⟩] := by
   decide
 
 /-- The ids of the two `DictChanges` blocks and of the star-import `enter_file` resolve. -/
 example : kindOfId "rattr/analyser/file.py::FileAnalyser.visit_AnyAssign::with DictChanges#0" = some .propagate
     ∧ kindOfId "rattr/models/context/_root_context.py::RootContextBuilder.visit_assignment::with DictChanges#0" = some .propagate
     ∧ kindOfId "rattr/models/context/_context.py::Context.expand_starred_imports::with enter_file#0" = some .propagate
-    ∧ kindOfId "rattr/analyser/util.py::parse_rattr_results_from_annotation_args_impl::except SystemExit#0" = some .catchReraise := by
+    ∧ kindOfId "rattr/analyser/util.py::parse_rattr_results_from_annotation_args_impl::except SystemExit#0" = some .catchReemit := by
+  decide
+
+/-! ### Lines captured by `redirect_stderr` come back to stderr -/
+
+/-- Tie A: the one SystemExit handler around a `with redirect_stderr(S)` has exactly the pinned
+body — every captured line goes to `print(line, file=sys.stderr)` unless it contains "unable to
+evaluate", in which case `error.fatal` is called instead — and every stderr-diverting `with` of
+rattr/**.py sits in the `try` body of such a handler. A bare `print(line)`, a dropped emission or a
+different filter changes the table and breaks this theorem. -/
+theorem C15_capture_handler_pinned :
+    Generated.C15.captureHandlers =
+      [("rattr/analyser/util.py::parse_rattr_results_from_annotation_args_impl::except SystemExit#0",
+        "unable to evaluate", "print(LINE, file=sys.stderr)", "error.fatal")]
+    ∧ (∀ c ∈ Generated.C15.captureScopes,
+        kindOfId c.1 = some .capture ∧ kindOfId c.2 = some .catchReemit
+        ∧ ∃ h ∈ Generated.C15.captureHandlers, h.1 = c.2) := by
+  decide
+
+theorem reachesReemit_pinned (outer : List ScopeKind) :
+    reachesReemit (outer ++ [ScopeKind.catchReemit, ScopeKind.capture]).reverse false = true := by
+  simp [reachesReemit]
+
+/-- **Every fatal raised where its SystemExit arrives at the re-emitting handler puts exactly one
+line of level fatal on stderr** — its own, or the handler's replacement for a line of the filtered
+family — whatever the configuration. (Without a capture in the way the line goes there directly.) -/
+theorem C15_captured_fatal_on_stderr (cfg : Cfg) (r : Run) (b : Nat) (src : Option FileId)
+    (filtered : Bool) (scopes : List ScopeKind) (hre : reachesReemit scopes.reverse false = true) :
+    (step cfg r (.diag .fatal b src filtered scopes)).stderr = r.stderr ++ [⟨.fatal, placeOf r.cur⟩] := by
+  have hst : ∀ (x : Run) (f : Fate), (applyFate x f).stderr = x.stderr := by
+    intro x f; cases f <;> rfl
+  simp only [step, emit, Diag.fatal, if_true, hst, afterEmit, stderrLines, hre, Bool.and_self]
+  cases scopes.contains ScopeKind.capture <;> cases filtered <;> simp
+
+/-- The same for a weighted error under strict mode (`error` calls `fatal` itself). -/
+theorem C15_captured_strict_error_on_stderr (cfg : Cfg) (r : Run) (b : Nat) (src : Option FileId)
+    (filtered : Bool) (scopes : List ScopeKind) (hs : cfg.strict = true) (hb : b > 0)
+    (hre : reachesReemit scopes.reverse false = true) :
+    (step cfg r (.diag .error b src filtered scopes)).stderr = r.stderr ++ [⟨.fatal, placeOf r.cur⟩] := by
+  have hst : ∀ (x : Run) (f : Fate), (applyFate x f).stderr = x.stderr := by
+    intro x f; cases f <;> rfl
+  have hb' : decide (b > 0) = true := by simpa using hb
+  simp only [step, emit, Diag.error, Diag.fatal, hs, hb', Bool.and_self, if_true, hst, afterEmit,
+    stderrLines, hre]
+  cases scopes.contains ScopeKind.capture <;> cases filtered <;> simp
+
+/-- For the annotation parser of the pinned code: whatever encloses it, a fatal raised under its
+`redirect_stderr` yields a fatal line on stderr. -/
+theorem C15_annotation_parser_fatal_on_stderr (cfg : Cfg) (r : Run) (b : Nat) (src : Option FileId)
+    (filtered : Bool) (outer : List ScopeKind) :
+    (step cfg r (.diag .fatal b src filtered (outer ++ [.catchReemit, .capture]))).stderr
+      = r.stderr ++ [⟨.fatal, placeOf r.cur⟩] :=
+  C15_captured_fatal_on_stderr cfg r b src filtered _ (reachesReemit_pinned outer)
+
+/-- The hypothesis is needed: under a handler that re-raises without handing the captured lines
+back (the shape of a dropped re-emission) the fatal ends the run and nothing reaches stderr. -/
+theorem C15_captured_fatal_needs_reemit :
+    let steps := [Step.enterFile (some 0), .diag .fatal 0 (some 0) false [.propagate, .catchReraise, .capture]]
+    (DiagScope.run (lax 0) steps).exit = 1 ∧ (DiagScope.run (lax 0) steps).stderr = []
+    ∧ (DiagScope.run (lax 0) steps).logged = [⟨.fatal, .target⟩] := by
+  decide
+
+/-- A whole run: the captured fatal itself (not of the filtered family) reaches stderr in place. -/
+example :
+    let steps := [Step.enterFile (some 0), .diag .warning 1 (some 0) false [.propagate],
+                  .diag .fatal 0 (some 0) false [.propagate, .catchReemit, .capture]]
+    (DiagScope.run (lax 0) steps).stderr = [⟨.warning, .target⟩, ⟨.fatal, .target⟩]
+    ∧ (DiagScope.run (lax 0) steps).logged = [⟨.warning, .target⟩, ⟨.fatal, .target⟩]
+    ∧ (DiagScope.run (lax 0) steps).exit = 1 := by
   decide
 
 end Scoped
